@@ -35,8 +35,8 @@ RULE = ("a case = one reaction network (list of reactions with ids, rules, coeff
 EXHAUSTIVE = {"quick": True, "thorough": True}
 EXPLANATION = ("Exhaustive sub-spaces: every set of <=2 (quick) / <=3 (thorough) reactions out of the 90 reactions between the 10 "
                "complexes of molecularity <=2 over 3 species (coefficients scaled by PRNG factors from {1,2,3,12}, 2 rule names, PRNG "
-               "label triple and flag combination per network; in the quick tier a pair of reactions goes through one of the three "
-               "views in rotation, single reactions and the thorough tier through all three); every text of length <=4 (quick) / <=5 (thorough) over the alphabet "
+               "label triple and flag combination per network; the largest sets of a tier - pairs in quick, triples in thorough - go "
+               "through one of the three views each, in rotation, smaller sets through all three); every text of length <=4 (quick) / <=5 (thorough) over the alphabet "
                "{A,2,0,space,+,*,_} through RXNSide.from_str; every bipartite export flag combination on a fixed set of networks. "
                "Everything else (random networks <=8 species / 10 reactions, fuzzed reaction lines, adversarial labels) is seeded random. "
                "Theorems: see coq/props/C16.v (round trips proved for all networks satisfying the stated decidable preconditions).")
@@ -601,9 +601,9 @@ def gen_cases(tier, rng):
         for idx in itertools.combinations(range(len(R)), k):
             net = _small_net(rng, [R[i] for i in idx])
             vs = _std_views(rng)
-            if quick and k == 2:
-                # quick tier: every pair of reactions is still generated, but goes through ONE of the three views (rotating);
-                # singles go through all three; the thorough tier runs all three views on every set
+            if (quick and k == 2) or k == 3:
+                # the largest sets of a tier (pairs in quick, triples in thorough) are all generated but go through ONE of the
+                # three views each (rotating); smaller sets go through all three
                 vs = [vs[len(cases) % 3]]
             cases.append(dict(kind="exh-small-%d" % k, net=net, views=vs))
     # ---- pure catalysts: a species with the same coefficient on both sides that is the ONLY species on one side
